@@ -278,6 +278,7 @@ func runC20(cfg runCfg) error {
 		nedit := 2 + r.Intn(7)
 		var files, observed, freshObs []string
 		var prevEdit *cfgFile
+		routeOK, routeDetail := true, ""
 		interesting := false
 		var texts []string
 		for e := 0; e < nedit; e++ {
@@ -321,6 +322,12 @@ func runC20(cfg runCfg) error {
 				return err
 			}
 			_ = c.VerifReload()
+			// what is federated is what queries are planned against: the published schema and the routing table name exactly
+			// the services of the service table (every simulated service is healthy and owns one root field)
+			if routed, table := routedServices(es), serviceTable(es); routed != table {
+				routeOK = false
+				routeDetail = fmt.Sprintf("after edit %d the service table holds [%s] but the published routing names [%s]", e+1, table, routed)
+			}
 			files = append(files, f.term())
 			texts = append(texts, f.Text)
 			observed = append(observed, observeConfig(c, es, jp))
@@ -344,6 +351,7 @@ func runC20(cfg runCfg) error {
 			bramble.RegisteredPlugins()["auth-jwt"] = jp
 		}
 		c.VerifClose()
+		sum.GoOracle = append(sum.GoOracle, oracleResult{Case: name, Component: "prop.c20.routing_follows_service_list", OK: routeOK, Detail: routeDetail})
 		if interesting {
 			distinct++
 		}
@@ -362,4 +370,20 @@ func runC20(cfg runCfg) error {
 	}
 	sum.Cases, sum.Files, sum.Nontrivial = len(w.cases), files, distinct
 	return writeSummary(cfg.out, sum)
+}
+
+func routedServices(es *bramble.ExecutableSchema) string {
+	set := map[string]bool{}
+	for _, u := range es.Locations {
+		set[u] = true
+	}
+	return strings.Join(sortedKeys(set), " ")
+}
+
+func serviceTable(es *bramble.ExecutableSchema) string {
+	set := map[string]bool{}
+	for u := range es.Services {
+		set[u] = true
+	}
+	return strings.Join(sortedKeys(set), " ")
 }
